@@ -560,6 +560,10 @@ def forparam_cases():
                         continue
                     for shape in ('single', 'inner', 'outer'):
                         cases.append((sig, a, b, s, shape))
+                    if abs(1 if s is None else s) <= 3:
+                        # limit and step given as variables of the counter's type that the body reassigns:
+                        # the loop runs over the values fixed at entry
+                        cases.append((sig, a, b, s, 'varbound'))
     return cases
 
 
@@ -569,7 +573,14 @@ def forparam_lines(case, variant):
     st = None if s is None else ('c', s)
     named = variant == 'B'
     f = ('for', 1, v, ('c', a), ('c', b), st)
-    if shape == 'single':
+    if shape == 'varbound':
+        lim, stp = 'N' + sig, 'S' + sig
+        sv = 1 if s is None else s
+        f = ('for', 1, v, ('c', a), ('v', lim), ('v', stp))
+        stmts = [('let', lim, ('c', b)), ('let', stp, ('c', sv)), f, ('printv', v),
+                 ('let', lim, ('c', a)), ('let', stp, ('-', ('c', 0), ('v', stp))),
+                 ('next', [1], [v] if named else None), ('print', 'e')]
+    elif shape == 'single':
         stmts = [f, ('printv', v), ('next', [1], [v] if named else None), ('print', 'e')]
     elif shape == 'inner':
         # the tested loop inside a two-trip loop
